@@ -7,7 +7,7 @@ import z3
 
 from .core import *  # noqa: F401,F403
 from .vals import *  # noqa: F401,F403
-from .vals import SEQ, MapSeqP, SetP, VMapSlot
+from .vals import SEQ, ROWS, IntRowsP, MapSeqP, SetP, VMapSlot
 from .ev_expr import UNBOUND, BoolishV, StrListP
 from .schema import SCHEMA
 
@@ -37,6 +37,43 @@ def attr_path(node) -> str | None:
     if isinstance(node, ast.Subscript):
         return attr_path(node.value)
     return None
+
+
+def alias_sources(loop, root):
+    """heap paths of the lists a local bound inside the loop may point into; unknown=True when some binding is neither a
+    list element nor a call result (a call returns a fresh object or is covered by the callee's modifies clause)"""
+    srcs, unknown = set(), False
+
+    def from_iter(it):
+        nonlocal unknown
+        while isinstance(it, ast.Call) and isinstance(it.func, ast.Name) and it.func.id in ("enumerate", "reversed", "list") and it.args:
+            it = it.args[0]
+        if isinstance(it, ast.Call):
+            return
+        p = attr_path(it)
+        if p:
+            srcs.add(p)
+        else:
+            unknown = True
+
+    for n in ast.walk(loop):
+        if isinstance(n, ast.For) and root in assigned_names([n.target]):
+            from_iter(n.iter)
+        elif isinstance(n, (ast.Assign, ast.AnnAssign)):
+            targets = n.targets if isinstance(n, ast.Assign) else [n.target]
+            if any(isinstance(t, ast.Name) and t.id == root for t in targets) and n.value is not None:
+                v = n.value
+                if isinstance(v, ast.Subscript):
+                    p = attr_path(v.value)
+                    if p:
+                        srcs.add(p)
+                    else:
+                        unknown = True
+                elif isinstance(v, (ast.Call, ast.Constant)):
+                    pass
+                else:
+                    unknown = True
+    return srcs, unknown
 
 
 class StmtMixin:
@@ -73,6 +110,20 @@ class StmtMixin:
         raise ContinueSig()
 
     def s_Assign(self, st, fr):
+        lt = ((fr.contract.ghost or {}).get("local_types") or {}) if getattr(fr, "contract", None) is not None else {}
+        if lt and len(st.targets) == 1 and isinstance(st.targets[0], ast.Name) and st.targets[0].id in lt and (
+                (isinstance(st.value, ast.Dict) and not st.value.keys) or (isinstance(st.value, ast.List) and not st.value.elts)):
+            # an empty literal bound to a local whose element type the contract declares: symbolic empty container from the start
+            ty = lt[st.targets[0].id]
+            n = self.new_ref(st.targets[0].id)
+            if ty.startswith("introws:") and isinstance(st.value, ast.Dict):
+                self.payload[n] = IntRowsP(z3.K(z3.IntSort(), z3.BoolVal(False)), z3.Const(n + "!rows", ROWS), int(ty.split(":")[1]))
+                fr.locals[st.targets[0].id] = VDict(n)
+                return
+            if ty == "intlist" and isinstance(st.value, ast.List):
+                fr.locals[st.targets[0].id] = self.new_list(IntListP(z3.Array(n, z3.IntSort(), z3.IntSort()), z3.IntVal(0), "int"), n)
+                return
+            raise Unsupported(f"local type {ty}")
         v = self.eval(st.value, fr)
         for t in st.targets:
             self.assign(t, v, fr, st)
@@ -169,6 +220,8 @@ class StmtMixin:
             if isinstance(p, StrListP):
                 p.writes.append((j, v))
                 return
+            if isinstance(p, RecListP) and (isinstance(v, VElem) or (isinstance(v, VTuple) and getattr(v, "cls", None) == p.cls)):
+                self.detach_aliases(base.ref, j, p)
             if isinstance(p, RecListP) and isinstance(v, VTuple) and getattr(v, "cls", None) == p.cls:
                 for fname, val in zip(list(SCHEMA[p.cls]), v.items):
                     p.fields[fname] = z3.Store(p.fields[fname], j, val.t)
@@ -183,6 +236,30 @@ class StmtMixin:
                 return
             raise Unsupported(f"store into {type(p).__name__}")
         return self.store_index_special(base, idx, v, node, fr)
+
+    def detach_aliases(self, ref, j, p):
+        """the object at position j of a record list is about to be replaced: locals that denote that object (bound by
+        `x = lst[j]`) keep denoting it, so they become detached snapshots of its fields.  The index relation must be
+        decidable on the path (same position / provably different); anything else is out of reach."""
+        for frame in self.frames:
+            for name, val in list(frame.locals.items()):
+                if not (isinstance(val, VElem) and val.lst == ref):
+                    continue
+                same = z3.simplify(val.idx == j)
+                if z3.is_false(same):
+                    continue
+                if not z3.is_true(same):
+                    if not self.feasible(val.idx == j):
+                        continue
+                    if self.feasible(val.idx != j):
+                        raise Unsupported(f"record store may or may not replace the object local {name} refers to")
+                items = []
+                for fname, fty in SCHEMA[p.cls].items():
+                    t = z3.Select(p.fields[fname], val.idx)
+                    items.append(VBool(t) if fty == "bool" else (VInt(t) if fty == "int" else VAtom(t)))
+                snap = VTuple(items)
+                snap.cls = p.cls
+                frame.locals[name] = snap
 
     def store_index_special(self, base, idx, v, node, fr):
         if isinstance(base, VDict) and isinstance(self.get_payload(base.ref), MapSeqP):
@@ -203,6 +280,25 @@ class StmtMixin:
             k = self.as_int(idx)
             p.keys = z3.Store(p.keys, k, z3.BoolVal(True))
             p.vals = z3.Store(p.vals, k, self.as_int(v))
+            return
+        if isinstance(base, VDict) and isinstance(self.get_payload(base.ref), IntRowsP):
+            p = self.mut_payload(base.ref) if base.ref not in self.payload else self.payload[base.ref]
+            k = self.as_int(idx)
+            lp = self.get_payload(v.ref) if isinstance(v, VList) else None
+            if not (isinstance(lp, PyListP) and len(lp.items) == p.rowlen and all(isinstance(x, (VInt, VBool)) for x in lp.items)):
+                raise Unsupported(f"row store: expected a literal list of {p.rowlen} ints")
+            row = z3.Select(p.vals, k)
+            for j, x in enumerate(lp.items):
+                row = z3.Store(row, z3.IntVal(j), self.as_int(x))
+            p.keys = z3.Store(p.keys, k, z3.BoolVal(True))
+            p.vals = z3.Store(p.vals, k, row)
+            return
+        if isinstance(base, VMapSlot) and isinstance(self.get_payload(base.ref), IntRowsP):
+            p = self.mut_payload(base.ref) if base.ref not in self.payload else self.payload[base.ref]
+            i = self.as_int(idx)
+            self.safe_or_raise(z3.And(i >= -p.rowlen, i < p.rowlen), "IndexError", node, fr, "subscript")
+            j = z3.simplify(self.norm_index(i, z3.IntVal(p.rowlen)))
+            p.vals = z3.Store(p.vals, base.key, z3.Store(z3.Select(p.vals, base.key), j, self.as_int(v)))
             return
         raise Unsupported(f"subscript store on {base!r}")
 
@@ -508,6 +604,20 @@ class StmtMixin:
                 callee = self.static_callee(n, fr)
                 if callee is not None:
                     heap_paths |= self.callee_modifies_paths(callee, n, fr)
+        # stores through a local that aliases an element of a list (`rule.enabled = ...` with `for rule in self.__rules__`,
+        # `opener = delimiters[i]; opener.end = ...`): the list itself is written
+        for p in sorted(heap_paths):
+            root, _, rest = p.partition(".")
+            if not rest:
+                continue
+            cur = fr.locals.get(root, UNBOUND)
+            if isinstance(cur, VElem):
+                heap_paths.add("@payload:" + cur.lst)
+            if root in names:
+                srcs, unknown = alias_sources(st, root)
+                heap_paths |= srcs
+                if unknown:
+                    raise Unsupported(f"loop writes through local {root} whose binding inside the loop is not a list element or a call result")
         return names, heap_paths
 
     def havoc_value(self, v, name, types):
@@ -534,7 +644,7 @@ class StmtMixin:
         if isinstance(v, VList):
             self.havoc_payload(v.ref, name)
             return v
-        if isinstance(v, VDict) and isinstance(self.get_payload(v.ref), (SetP, MapSeqP, IntMapP)):
+        if isinstance(v, VDict) and isinstance(self.get_payload(v.ref), (SetP, MapSeqP, IntMapP, IntRowsP)):
             self.havoc_payload(v.ref, name)
             return v
         if v is UNBOUND or v is None:
@@ -575,6 +685,9 @@ class StmtMixin:
         elif isinstance(p, IntMapP):
             n = self.new_ref(name)
             self.payload[ref] = IntMapP(z3.Array(n + "?in", z3.IntSort(), z3.BoolSort()), z3.Array(n, z3.IntSort(), z3.IntSort()))
+        elif isinstance(p, IntRowsP):
+            n = self.new_ref(name)
+            self.payload[ref] = IntRowsP(z3.Array(n + "?in", z3.IntSort(), z3.BoolSort()), z3.Const(n + "!rows", ROWS), p.rowlen)
         elif isinstance(p, MapSeqP):
             n = self.new_ref(name)
             self.payload[ref] = MapSeqP(z3.Array(n + "?in", z3.IntSort(), z3.BoolSort()), z3.Array(n, z3.IntSort(), SEQ))
@@ -585,6 +698,9 @@ class StmtMixin:
             raise Unsupported(f"havoc of {type(p).__name__}")
 
     def havoc_heap_path(self, path: str, fr, types):
+        if path.startswith("@payload:"):
+            self.havoc_payload(path[len("@payload:"):], path[len("@payload:"):])
+            return
         parts = path.split(".")
         root = parts[0]
         if root not in fr.locals:
@@ -593,7 +709,7 @@ class StmtMixin:
         if len(parts) == 1:
             if isinstance(v, VList):
                 self.havoc_payload(v.ref, root)
-            elif isinstance(v, VDict) and isinstance(self.get_payload(v.ref), (SetP, MapSeqP, IntMapP)):
+            elif isinstance(v, VDict) and isinstance(self.get_payload(v.ref), (SetP, MapSeqP, IntMapP, IntRowsP)):
                 self.havoc_payload(v.ref, root)
             elif isinstance(v, VDict):
                 raise Unsupported(f"loop mutates the literal dict {root}")
